@@ -768,6 +768,35 @@ func TestC12(t *testing.T) {
 		return c
 	}, propC12)
 
+	// pondering on a limit that is reached long before the ponderhit (depth / nodes, with and without a clock):
+	// nothing before the ponderhit, exactly one bestmove after it without a stop being needed
+	hx.Sub(r, "ponder-limits", r.N(30, 400), func(t *rapid.T) uciCase {
+		var c uciCase
+		c.Steps = []uStep{{Kind: "isready"}}
+		for n := rapid.IntRange(1, 3).Draw(t, "searches"); n > 0; n-- {
+			l := hx.LimSpec{Mode: "ponder", StopAfterMs: -1, PonderHitAfterMs: -1}
+			switch rapid.IntRange(0, 3).Draw(t, "limit") {
+			case 0:
+				l.Depth = rapid.IntRange(1, 3).Draw(t, "d")
+			case 1:
+				l.Nodes = rapid.IntRange(1, 2000).Draw(t, "n")
+			case 2:
+				l.Depth = rapid.IntRange(1, 3).Draw(t, "d")
+				l.MoveTime = rapid.IntRange(20, 200).Draw(t, "mt")
+			case 3:
+				l.Nodes = rapid.IntRange(1, 2000).Draw(t, "n")
+				l.WTime, l.BTime = 2000, 2000
+			}
+			c.Steps = append(c.Steps, uStep{Kind: "go", Limits: l}, uStep{Kind: "sleep", SleepMs: rapid.IntRange(20, 60).Draw(t, "think")})
+			if rapid.IntRange(0, 3).Draw(t, "end") == 0 {
+				c.Steps = append(c.Steps, uStep{Kind: "stop"}, uStep{Kind: "await"})
+			} else {
+				c.Steps = append(c.Steps, uStep{Kind: "ponderhit"}, uStep{Kind: "await"})
+			}
+		}
+		return c
+	}, propC12)
+
 	hx.Sub(r, "newgame", r.N(30, 500), func(t *rapid.T) newGameCase {
 		c := newGameCase{Depth: rapid.IntRange(2, 5).Draw(t, "depth")}
 		p := rc.MustParse(rc.StartFEN)
